@@ -558,7 +558,7 @@ def classify(w):
 
 
 GENS = {
-    "crash": Gen(case_crash, 14, 1500),
+    "crash": Gen(case_crash, 11, 1500),
     "guard": Gen(case_guard, 24, 600),
 }
 MIN_EVALS = {"exactly-once": 300, "restart-completes": 150, "crash-injected": 150,
